@@ -176,6 +176,14 @@ def enum_criteria(tier):
             if n == 5 and k % 6:
                 continue
             yield {"n": n, "edges": [list(e) for e in edges]}
+            # the same graph with one (for 4+ nodes sometimes two) variables declared latent: enumerated sets must avoid them, and
+            # paths THROUGH them still count for the criteria
+            if n >= 3 and edges:
+                for l in range(n):
+                    if n <= 3 or (k + l) % 2 == 0:
+                        yield {"n": n, "edges": [list(e) for e in edges], "latents": [l]}
+                if n >= 4 and k % 5 == 0:
+                    yield {"n": n, "edges": [list(e) for e in edges], "latents": [k % n, (k // n + 1 + k % n) % n]}
 
 
 def run_criteria(case, drv):
@@ -183,18 +191,21 @@ def run_criteria(case, drv):
     from pgmpy.inference import CausalInference
     n, edges = case["n"], case["edges"]
     names = NAMES[:n]
-    bn = BayesianNetwork()
+    lat = sorted(set(case.get("latents", [])))
+    bn = BayesianNetwork(latents={names[l] for l in lat})
     bn.add_nodes_from(names)
     bn.add_edges_from([(names[u], names[v]) for u, v in edges])
     ci = CausalInference(bn)
     mg = {"nodes": list(range(n)), "edges": edges}
     nchecks = 0
     for x in range(n):
+        if x in lat:
+            continue
         desc = set(drv.call("g_descendants", g=mg, zs=[x]))
         for y in range(n):
-            if y == x:
+            if y == x or y in lat:
                 continue
-            cand = [z for z in range(n) if z not in desc and z not in (x, y)]
+            cand = [z for z in range(n) if z not in desc and z not in (x, y) and z not in lat]
             for r in range(len(cand) + 1):
                 for Z in itertools.combinations(cand, r):
                     crit = drv.call("causal_criteria", g=mg, x=x, y=y, zs=list(Z))
@@ -211,6 +222,8 @@ def run_criteria(case, drv):
             if sets is not None:
                 for s in (sets if sets else [frozenset()]):
                     zs = [names.index(z) for z in s]
+                    if set(zs) & set(lat):
+                        return fail(f"get_all_backdoor_adjustment_sets({names[x]},{names[y]}) lists {set(s)}, which contains a latent variable (latents {[names[l] for l in lat]})")
                     if not drv.call("causal_criteria", g=mg, x=x, y=y, zs=zs)["backdoor"]:
                         return fail(f"get_all_backdoor_adjustment_sets({names[x]},{names[y]}) lists {set(s)}, which violates the back-door criterion (edges {edges})")
             else:
@@ -221,8 +234,23 @@ def run_criteria(case, drv):
                             return fail(f"get_all_backdoor_adjustment_sets({names[x]},{names[y]}) found none, but {[names[z] for z in Z]} satisfies the criterion")
             for s in ci.get_all_frontdoor_adjustment_sets(names[x], names[y]):
                 zs = [names.index(z) for z in s]
+                if set(zs) & set(lat):
+                    return fail(f"get_all_frontdoor_adjustment_sets({names[x]},{names[y]}) lists {set(s)}, which contains a latent variable")
                 if not drv.call("causal_criteria", g=mg, x=x, y=y, zs=zs)["frontdoor"]:
-                    return fail(f"get_all_frontdoor_adjustment_sets({names[x]},{names[y]}) lists {set(s)}, which violates the front-door criterion (edges {edges})")
+                    return fail(f"get_all_frontdoor_adjustment_sets({names[x]},{names[y]}) lists {set(s)}, which violates the front-door criterion "
+                                f"(edges {edges}, latents {[names[l] for l in lat]})")
+            # the validity test itself, on every observed candidate set that avoids x and y
+            obs_all = [z for z in range(n) if z not in (x, y) and z not in lat]
+            for r in range(len(obs_all) + 1):
+                for Z in itertools.combinations(obs_all, r):
+                    want = drv.call("causal_criteria", g=mg, x=x, y=y, zs=list(Z))["frontdoor"]
+                    try:
+                        got = bool(ci.is_valid_frontdoor_adjustment_set(names[x], names[y], [names[z] for z in Z]))
+                    except Exception as e:
+                        return fail(f"is_valid_frontdoor_adjustment_set raised {type(e).__name__}: {e}")
+                    if got and not want:
+                        return fail(f"is_valid_frontdoor_adjustment_set({names[x]},{names[y]},{[names[z] for z in Z]}) = True, but the front-door "
+                                    f"criterion fails on paths (edges {edges}, latents {[names[l] for l in lat]})")
             if [x, y] not in edges and [y, x] not in edges:
                 try:
                     ms = ci.get_minimal_adjustment_set(names[x], names[y])
@@ -232,7 +260,7 @@ def run_criteria(case, drv):
                     zs = [names.index(z) for z in ms]
                     if not drv.call("causal_criteria", g=mg, x=x, y=y, zs=zs)["blocks"]:
                         return fail(f"get_minimal_adjustment_set({names[x]},{names[y]}) = {set(ms)} leaves a back-door path open (edges {edges})")
-    return ok(nontrivial=bool(edges), n=n, checks=min(nchecks // 10 * 10, 100))
+    return ok(nontrivial=bool(edges), n=n, checks=min(nchecks // 10 * 10, 100), latents=len(lat))
 
 
 STREAMS = [
